@@ -2,7 +2,7 @@
    The statements (…_stmt) are spelled out in ProofsProps.v / ProofsCmp.v:
      canon r = den r > 0 /\ gcd (num r) (den r) = 1;  toQ r = num r / den r in Coq's Q;  red = true is Reduce mode. *)
 From Coq Require Import ZArith QArith.
-From C10 Require Import Model ProofsBase ProofsCmp ProofsProps ProofsMisc ProofsOrder ProofsDouble ProofsAlias.
+From C10 Require Import Model ProofsBase ProofsCmp ProofsProps ProofsMisc ProofsOrder ProofsDouble ProofsAlias ProofsAudit.
 Local Open Scope Z_scope.
 
 Theorem C10_canonical_zero_is_0_over_1 : Canonical_zero_stmt.        Proof. exact canonical_zero_thm. Qed.
@@ -37,10 +37,13 @@ Theorem C10_absCompare_is_sign_of_abs_difference : AbsCompare_stmt.   Proof. exa
 Print Assumptions C10_absCompare_is_sign_of_abs_difference.
 Theorem C10_six_operators_are_the_order_of_Q : Operators_stmt.        Proof. exact operators_thm. Qed.
 Print Assumptions C10_six_operators_are_the_order_of_Q.
-Theorem C10_trichotomy : Trichotomy_stmt.                             Proof. exact trichotomy_thm. Qed.
-Print Assumptions C10_trichotomy.
-Theorem C10_operator_complements : Complement_stmt.                   Proof. exact complement_thm. Qed.
-Print Assumptions C10_operator_complements.
+(* the two statements formerly named C10_trichotomy / C10_operator_complements hold for ANY value in place of compare():
+   they are facts about the tests `< 0`, `== 0`, `> 0` of the inline operators and are named accordingly; the trichotomy of
+   the property sentence (exactly one operator answers, and it is the one Q dictates) is C10_trichotomy_matches_Q below *)
+Theorem C10_sign_tests_exclusive_and_complementary_for_any_compare_value : Sign_tests_any_compare_stmt. Proof. exact sign_tests_any_compare_thm. Qed.
+Print Assumptions C10_sign_tests_exclusive_and_complementary_for_any_compare_value.
+Theorem C10_trichotomy_matches_Q : Trichotomy_Q_stmt.                 Proof. exact trichotomy_Q_thm. Qed.
+Print Assumptions C10_trichotomy_matches_Q.
 Theorem C10_qfield_predicates : QField_predicates_stmt.              Proof. exact qfield_predicates_thm. Qed.
 Print Assumptions C10_qfield_predicates.
 Theorem C10_ctor_integer_canonical_exact : Ctor_integer_stmt.         Proof. exact ctor_integer_thm. Qed.
@@ -88,7 +91,28 @@ Print Assumptions C10_operator_double_not_correctly_rounded_in_general.
 Theorem C10_double_roundtrip_limited_by_mpz_get_d_range : Double_roundtrip_limit_stmt. Proof. exact double_roundtrip_limit_thm. Qed.
 Print Assumptions C10_double_roundtrip_limited_by_mpz_get_d_range.
 (* phase 3: the field-interface wrappers under every aliasing pattern of r, a, b, c *)
+Theorem C10_qfield_wrappers_statement_level_equal_call_time_values : Wrappers_statement_level_stmt. Proof. exact wrappers_statement_level_thm. Qed.
+Print Assumptions C10_qfield_wrappers_statement_level_equal_call_time_values.
 Theorem C10_qfield_wrappers_exact_under_every_aliasing_pattern : Wrappers_any_alias_stmt. Proof. exact wrappers_any_alias_thm. Qed.
 Print Assumptions C10_qfield_wrappers_exact_under_every_aliasing_pattern.
 Theorem C10_two_step_axpy_wrong_when_r_is_c : Two_step_axpy_refuted_stmt. Proof. exact two_step_axpy_refuted_thm. Qed.
 Print Assumptions C10_two_step_axpy_wrong_when_r_is_c.
+Theorem C10_inv_without_alias_guard_wrong_history : Inv_unguarded_refuted_stmt. Proof. exact inv_unguarded_refuted_thm. Qed.
+Print Assumptions C10_inv_without_alias_guard_wrong_history.
+(* phase 4 *)
+Theorem C10_pow_negative_exponent_total_with_exception : Pow_total_stmt. Proof. exact pow_total_thm. Qed.
+Print Assumptions C10_pow_negative_exponent_total_with_exception.
+Theorem C10_zero_divisor_history_unguarded_bodies_store_null_denominator : Zero_divisor_history_stmt. Proof. exact zero_divisor_history_thm. Qed.
+Print Assumptions C10_zero_divisor_history_unguarded_bodies_store_null_denominator.
+Theorem C10_conversion_to_integer_type_with_cast : Conv_int_T_stmt.     Proof. exact conv_int_T_thm. Qed.
+Print Assumptions C10_conversion_to_integer_type_with_cast.
+Theorem C10_ieee_field_packing_means_m_times_2_pow_e : Encode_stmt.    Proof. exact encode_thm. Qed.
+Print Assumptions C10_ieee_field_packing_means_m_times_2_pow_e.
+Theorem C10_rounded_quotient_has_the_shape_encode_needs : Rne_shape_stmt. Proof. exact rne_shape_thm. Qed.
+Print Assumptions C10_rounded_quotient_has_the_shape_encode_needs.
+Theorem C10_operator_double_field_by_field : To_double_fields_stmt.    Proof. exact to_double_fields_thm. Qed.
+Print Assumptions C10_operator_double_field_by_field.
+Theorem C10_integer_to_float_is_truncate_then_round : Get_f_stmt.      Proof. exact get_f_thm. Qed.
+Print Assumptions C10_integer_to_float_is_truncate_then_round.
+Theorem C10_operator_float_any_member_size : To_float_general_stmt.    Proof. exact to_float_general_thm. Qed.
+Print Assumptions C10_operator_float_any_member_size.
